@@ -201,6 +201,7 @@ def _exit_obligations(ex, ctx, fi, contract, e, deferred, ghost_env, rty, n_exit
     if e.status in ("break", "continue"):
         raise Unsupported("break/continue escaped a loop")
     raised = e.status == "raise"
+    is_cut = e.status == "cut"
     exc_value = e.value if raised else None
     result = e.value if e.status == "return" else VNone()
     declared = set()
@@ -219,6 +220,8 @@ def _exit_obligations(ex, ctx, fi, contract, e, deferred, ghost_env, rty, n_exit
         e.status = "run"
         e.ghost["__multi__"] = False
         label = d.label or str(idx)
+        if is_cut and d.kind in ("ensures", "raises", "shares"):
+            continue  # verification stops at the cut: only the emitted model and the frame are checked
         if d.kind == "ensures" and not raised:
             for j, a in enumerate(d.node.args):
                 for pc2, g2 in _cond_split(ex, e, a):
